@@ -9,6 +9,9 @@
  *   b <cases>   behaviour through the public API of the rebuilt library (job API and async burst
  *               API) on every manager (sse/avx2/avx512 x flags 0 / SHANI_OFF|GFNI_OFF); prints one
  *               result record per (case, manager, api); see print format at run_b().
+ *   i <cases>   suite id of every job_view as computed by the library (IMB_MGR.set_suite_id); compared with
+ *               the translated calc_cipher_tab_index / set_cipher_suite_id
+ *   s           checked async burst with right / stale suite-id words (see run_s)
  *   m           misuse of the burst calls (NULL array, oversize, NULL job, out-of-order job, stale
  *               suite id, queue space) + invalid job inside the synchronous cipher/hash bursts.
  *   d           direct-API NULL / over-limit argument table, each row in a forked child.
@@ -952,6 +955,260 @@ run_m(void)
                 } else {
                         fault_armed = 0;
                         printf("U %s fault signal=%d FAIL\n", mgrs[i].name, (int) fault_sig);
+                }
+        }
+        return 0;
+}
+
+
+/* a well-formed burst of two copies of neighbour A must give reference output */
+static int
+good_burst_a(IMB_MGR *m)
+{
+        IMB_JOB *jobs[4];
+        uint32_t n = IMB_GET_NEXT_BURST(m, 1, jobs), got;
+        if (n != 1)
+                return 0;
+        IMB_JOB *pa = jobs[0];
+        nbr_fill(pa, &NA);
+        imb_set_session(m, pa);
+        got = IMB_SUBMIT_BURST(m, 1, jobs);
+        if (imb_get_errno(m) != 0)
+                return 0;
+        while (got < 1) {
+                uint32_t k = IMB_FLUSH_BURST(m, 1, jobs);
+                if (!k)
+                        break;
+                got += k;
+        }
+        return got == 1 && nbr_ok(pa, &NA);
+}
+
+/* ------------------------------------------------------------------ mode i: suite ids */
+static int
+run_i(const char *path)
+{
+        FILE *fp = fopen(path, "r");
+        if (!fp) {
+                perror(path);
+                return 2;
+        }
+        IMB_MGR *mgr = alloc_mb_mgr(0);
+        if (!mgr)
+                return 2;
+        init_mb_mgr_sse(mgr);
+        static char line[16384];
+        struct view v;
+        IMB_JOB job;
+        while (fgets(line, sizeof(line), fp)) {
+                if (line[0] == '#' || line[0] == '\n')
+                        continue;
+                if (parse_line(line, &v)) {
+                        printf("parse-error\n");
+                        continue;
+                }
+                job_from_view(&job, &v);
+                job.suite_id[0] = job.suite_id[1] = 0xDEADBEEF;
+                mgr->set_suite_id(mgr, &job);
+                printf("%u %u\n", job.suite_id[0], job.suite_id[1]);
+        }
+        fclose(fp);
+        free_mb_mgr(mgr);
+        return 0;
+}
+
+/* ------------------------------------------------------------------ mode s: stale suite ids in a checked burst
+ * A burst of n valid jobs; the job at position p is a valid job X whose stored suite id is
+ *   rr = the one imb_set_session() computed (right,right)
+ *   wr / rw / ww = cipher word / hash word / both replaced by the corresponding word of ANOTHER valid suite
+ *                  (what is left in a ring slot that was used for a different session before and for
+ *                  which imb_set_session() was not called again)
+ * Oracle: rr accepted and every job completes with reference output; every other combination is
+ * rejected as a whole: return 0, errno IMB_ERR_BURST_SUITE_ID, jobs[0] = X, X.status = INVALID_ARGS and
+ * nothing else in X changed, queue size unchanged, no destination/tag byte of any job written; a
+ * correct burst works afterwards.
+ *   S <mgr> n=<n> pos=<p> x=<suite> stale=<suite> case=<rr|wr|rw|ww> ret=<r> errno=<e> ... OK|FAIL */
+struct xsuite {
+        const char *name;
+        IMB_CIPHER_MODE cipher;
+        IMB_CIPHER_DIRECTION dir;
+        uint64_t key_len;
+        IMB_HASH_ALG hash;
+        uint64_t tag_len;
+};
+static const struct xsuite xsuites[] = {
+        { "cbc128-enc+hmac-sha1", IMB_CIPHER_CBC, IMB_DIR_ENCRYPT, 16, IMB_AUTH_HMAC_SHA_1, 12 },
+        { "ctr128-enc+hmac-sha256", IMB_CIPHER_CNTR, IMB_DIR_ENCRYPT, 16, IMB_AUTH_HMAC_SHA_256, 16 },
+        { "cbc256-dec+sha512", IMB_CIPHER_CBC, IMB_DIR_DECRYPT, 32, IMB_AUTH_SHA_512, 64 },
+        { "null+hmac-sha384", IMB_CIPHER_NULL, IMB_DIR_ENCRYPT, 16, IMB_AUTH_HMAC_SHA_384, 24 },
+        { "ecb192-enc+null", IMB_CIPHER_ECB, IMB_DIR_ENCRYPT, 24, IMB_AUTH_NULL, 0 },
+};
+#define NXS ((int) (sizeof(xsuites) / sizeof(xsuites[0])))
+static struct {
+        DECLARE_ALIGNED(uint8_t keys[2][16 * 15], 16);
+        uint8_t src[64], dst[64], tag[64], iv[16], pad[2][128];
+} XB;
+
+static void
+x_fill(IMB_JOB *j, const struct xsuite *x)
+{
+        memset(j, 0, sizeof(*j));
+        memset(XB.dst, 0xA5, sizeof(XB.dst));
+        memset(XB.tag, 0x5A, sizeof(XB.tag));
+        j->cipher_mode = x->cipher;
+        j->cipher_direction = x->dir;
+        j->chain_order = IMB_ORDER_CIPHER_HASH;
+        j->hash_alg = x->hash;
+        j->enc_keys = XB.keys[0];
+        j->dec_keys = XB.keys[1];
+        j->key_len_in_bytes = x->key_len;
+        j->src = XB.src;
+        j->dst = XB.dst;
+        j->msg_len_to_cipher_in_bytes = (x->cipher == IMB_CIPHER_NULL) ? 0 : 48;
+        j->msg_len_to_hash_in_bytes = 48;
+        j->iv = XB.iv;
+        j->iv_len_in_bytes = 16;
+        j->auth_tag_output = XB.tag;
+        j->auth_tag_output_len_in_bytes = x->tag_len;
+        j->u.HMAC._hashed_auth_key_xor_ipad = XB.pad[0];
+        j->u.HMAC._hashed_auth_key_xor_opad = XB.pad[1];
+}
+static int
+x_untouched(void)
+{
+        for (unsigned i = 0; i < sizeof(XB.dst); i++)
+                if (XB.dst[i] != 0xA5 || XB.tag[i] != 0x5A)
+                        return 0;
+        for (unsigned i = 0; i < sizeof(NA.dst); i++)
+                if (NA.dst[i] != 0xA5)
+                        return 0;
+        for (unsigned i = 0; i < sizeof(NA.tag); i++)
+                if (NA.tag[i] != 0x5A)
+                        return 0;
+        return 1;
+}
+
+static void
+run_s_one(const struct mgrdesc *d, IMB_MGR *m)
+{
+        static const unsigned sizes[] = { 1, 2, 3, 8, 17 };
+        static const char *cn[4] = { "rr", "wr", "rw", "ww" };
+        IMB_JOB *jobs[IMB_MAX_BURST_SIZE];
+
+        nbr_init(m, &NA, 64, 1);
+        if (nbr_reference(m, &NA)) {
+                printf("S %s reference-failed FAIL\n", d->name);
+                return;
+        }
+        for (int xi = 0; xi < NXS; xi++) {
+                const struct xsuite *x = &xsuites[xi], *st = &xsuites[(xi + 1) % NXS];
+                IMB_JOB tmp;
+                uint32_t right[2], stale[2];
+                x_fill(&tmp, x);
+                if (imb_set_session(m, &tmp) == 0) {
+                        printf("S %s x=%s set-session-failed errno=%d FAIL\n", d->name, x->name, imb_get_errno(m));
+                        continue;
+                }
+                right[0] = tmp.suite_id[0];
+                right[1] = tmp.suite_id[1];
+                x_fill(&tmp, st);
+                imb_set_session(m, &tmp);
+                stale[0] = tmp.suite_id[0];
+                stale[1] = tmp.suite_id[1];
+                if (stale[0] == right[0] || stale[1] == right[1]) {
+                        printf("S %s x=%s stale suite shares a word FAIL\n", d->name, x->name);
+                        continue;
+                }
+                for (unsigned si = 0; si < sizeof(sizes) / sizeof(sizes[0]); si++) {
+                        const unsigned n = sizes[si];
+                        const unsigned poss[3] = { 0, n / 2, n - 1 };
+                        for (int pi = 0; pi < 3; pi++) {
+                                const unsigned p = poss[pi];
+                                if (pi > 0 && p == poss[pi - 1])
+                                        continue;
+                                for (int c = 0; c < 4; c++) {
+                                        const uint32_t qs0 = IMB_QUEUE_SIZE(m);
+                                        if (IMB_GET_NEXT_BURST(m, n, jobs) != n) {
+                                                printf("S %s get_next_burst(%u) FAIL\n", d->name, n);
+                                                return;
+                                        }
+                                        IMB_JOB *px = jobs[p], snap;
+                                        memset(NA.dst, 0xA5, sizeof(NA.dst));
+                                        memset(NA.tag, 0x5A, sizeof(NA.tag));
+                                        for (unsigned k = 0; k < n; k++) {
+                                                if (k == p) {
+                                                        x_fill(jobs[k], x);
+                                                        imb_set_session(m, jobs[k]);
+                                                        if (c & 1)
+                                                                jobs[k]->suite_id[0] = stale[0];
+                                                        if (c & 2)
+                                                                jobs[k]->suite_id[1] = stale[1];
+                                                } else {
+                                                        nbr_fill(jobs[k], &NA);
+                                                        imb_set_session(m, jobs[k]);
+                                                }
+                                        }
+                                        snap = *px;
+                                        uint32_t got = IMB_SUBMIT_BURST(m, n, jobs);
+                                        const int e = imb_get_errno(m);
+                                        int ok;
+                                        char extra[128];
+                                        if (c == 0) {
+                                                while (got < n) {
+                                                        uint32_t k = IMB_FLUSH_BURST(m, n - got, jobs);
+                                                        if (!k)
+                                                                break;
+                                                        got += k;
+                                                }
+                                                ok = (e == 0 && got == n && px->status == IMB_STATUS_COMPLETED &&
+                                                      (n == 1 || memcmp(NA.dst, NA.ref_dst, sizeof(NA.dst)) == 0));
+                                                snprintf(extra, sizeof(extra), "completed=%u status=%d", got, px->status);
+                                        } else {
+                                                const int first = (jobs[0] == px);
+                                                const int dchg = desc_changed(px, &snap);
+                                                const int unt = x_untouched();
+                                                const uint32_t qs1 = IMB_QUEUE_SIZE(m);
+                                                ok = (got == 0 && e == IMB_ERR_BURST_SUITE_ID && first &&
+                                                      px->status == IMB_STATUS_INVALID_ARGS && !dchg && unt && qs1 == qs0);
+                                                snprintf(extra, sizeof(extra), "jobs0-is-x=%d status=%d desc=%d untouched=%d queue=%u->%u",
+                                                         first, px->status, dchg, unt, qs0, qs1);
+                                                if (got != 0 || e == 0) {
+                                                        /* wrongly accepted: drain whatever was dispatched */
+                                                        int guard = 0;
+                                                        while (IMB_FLUSH_BURST(m, IMB_MAX_BURST_SIZE, jobs) != 0 && guard++ < 64)
+                                                                ;
+                                                }
+                                        }
+                                        printf("S %s n=%u pos=%u x=%s stale=%s case=%s ret=%u errno=%d %s %s\n", d->name, n, p, x->name,
+                                               st->name, cn[c], got, e, extra, ok ? "OK" : "FAIL");
+                                }
+                        }
+                }
+                /* a correct burst afterwards */
+                printf("S %s after x=%s good-burst %s\n", d->name, x->name, good_burst_a(m) ? "OK" : "FAIL");
+        }
+}
+
+static int
+run_s(void)
+{
+        install_fault_handlers();
+        for (int i = 0; i < NMGRS; i++) {
+                IMB_MGR *m = make_mgr(&mgrs[i]);
+                if (!m) {
+                        printf("M %s unavailable\n", mgrs[i].name);
+                        continue;
+                }
+                fault_sig = 0;
+                if (sigsetjmp(fault_env, 1) == 0) {
+                        fault_armed = 1;
+                        alarm(60);
+                        run_s_one(&mgrs[i], m);
+                        alarm(0);
+                        fault_armed = 0;
+                } else {
+                        fault_armed = 0;
+                        printf("S %s fault signal=%d FAIL\n", mgrs[i].name, (int) fault_sig);
                 }
         }
         return 0;
@@ -5914,7 +6171,7 @@ int
 main(int argc, char **argv)
 {
         if (argc < 2) {
-                fprintf(stderr, "usage: k12_validate a|l|b <cases> | m | d\n");
+                fprintf(stderr, "usage: k12_validate a|l|b|i <cases> | m | s | d\n");
                 return 2;
         }
         setvbuf(stdout, NULL, _IOFBF, 1 << 16);
@@ -5931,6 +6188,10 @@ main(int argc, char **argv)
         }
         if (argv[1][0] == 'm')
                 return run_m();
+        if (argv[1][0] == 's')
+                return run_s();
+        if (argv[1][0] == 'i' && argc >= 3)
+                return run_i(argv[2]);
         if (argv[1][0] == 'd') {
                 setvbuf(stdout, NULL, _IOLBF, 0);
                 return run_d();
